@@ -194,16 +194,15 @@ func diffAnswers(a, b []*Answer) (kinds []string, detail string) {
 		if a[i].Result != b[i].Result || a[i].Err != b[i].Err {
 			m := a[i].Method
 			m = m[strings.LastIndex(m, "/")+1:]
+			if !seen[m] {
+				kinds = append(kinds, m)
+			}
 			seen[m] = true
 			if detail == "" {
 				detail = fmt.Sprintf("op#%d %s: A=%s%s B=%s%s", a[i].Op, a[i].Method, clip(a[i].Result, 300), a[i].Err, clip(b[i].Result, 300), b[i].Err)
 			}
 		}
 	}
-	for k := range seen {
-		kinds = append(kinds, k)
-	}
-	sort.Strings(kinds)
 	return
 }
 
@@ -240,9 +239,19 @@ func checkC09(t *testing.T, sc *Scenario) *Verdict {
 		types, d1 := diffViews(first.View, res.View)
 		kinds, d2 := diffAnswers(first.Answers, res.Answers)
 		if len(types) > 0 || len(kinds) > 0 {
-			sig := "diag-types:" + strings.Join(types, ",") + " answers:" + strings.Join(kinds, ",")
+			// signature = the first thing that differs (lowest diagnostic type, else first request
+			// kind) + the workspace features that are preconditions of known causes
+			sig := ""
+			if len(types) > 0 {
+				sig = "diag-type:" + types[0]
+			} else {
+				sig = "answer:" + kinds[0]
+			}
 			if hasDupGlobals(sc) {
-				sig += " +dup-global-workspace"
+				sig += " +dup-global"
+			}
+			if hasDupBase(sc) {
+				sig += " +dup-basename"
 			}
 			c := sc.Clone()
 			c.Scheds = []simrtConfig{withTape(sc.Scheds[0], first.Tape), withTape(cfg, res.Tape)}
@@ -271,6 +280,19 @@ func hasDupGlobals(sc *Scenario) bool {
 			}
 			where[name] = f.Path
 		}
+	}
+	return false
+}
+
+// hasDupBase reports whether two files share a base name (equal-score module candidates).
+func hasDupBase(sc *Scenario) bool {
+	seen := map[string]bool{}
+	for _, f := range sc.Files {
+		b := f.Path[strings.LastIndex(f.Path, "/")+1:]
+		if seen[b] {
+			return true
+		}
+		seen[b] = true
 	}
 	return false
 }
